@@ -12,12 +12,14 @@ checklib/C13.py (`TRUSTED_BASE`) and sampled by the campaign.
   scanning loop (tokenize.c)          Model/Lex (code points)       length + 1, proved sufficient  C19_lex_fuel_suffices
   macro expansion (preprocess.c)      Model/PP                      `bound defs ts` (object-like)  C09_terminates_partial
   driver process (main.c)             Model/DriverProc              small-step, proved to end      C14_terminates
+  #include machine (preprocess.c)     Model/IncludeDepth            budget-free total function     C10_include_terminates_main
 -/
 import ChibiVerif.Props.C17
 import ChibiVerif.Props.C07
 import ChibiVerif.Props.C19
 import ChibiVerif.Props.C09
 import ChibiVerif.Props.C14
+import ChibiVerif.Props.C10
 
 namespace ChibiVerif.Props.C13
 
@@ -58,5 +60,28 @@ theorem C13_driver_terminates {P : Type} [DecidableEq P] (env : ChibiVerif.Drive
     (fs : ChibiVerif.DriverProc.FS P) :
     ∃ code, (ChibiVerif.DriverProc.runCmd env cmd fs).1.phase = .done code :=
   ChibiVerif.Props.C14.C14_terminates env cmd fs
+
+/-- **`#include` processing always ends** (since fix b453bf4, nesting limit 200): a whole `chibicc -E <options> main` run over
+    any file system, any macro expander for `#include MACRO` operands and any option list needs only a finite step budget, and
+    its outcome is output or a diagnostic — "#include nested too deeply" included — never the exhausted budget.  (Before the
+    fix a file including itself exhausted every budget: Findings/C13Sites.lean, Findings/C10.lean.) -/
+theorem C13_include_no_hang (xp : ChibiVerif.IncludeDepth.Xp ChibiVerif.PPExpr.Body)
+    (hxp : ∀ d f ts, xp d f ts ≠ .error .outOfFuel) (fs : ChibiVerif.IncludeDepth.XFS ChibiVerif.PPExpr.Expr ChibiVerif.PPExpr.Body)
+    (sysDirs : List String) (builtin : ChibiVerif.CondIncl.Defs ChibiVerif.PPExpr.Body)
+    (os : List (ChibiVerif.IncludeSearch.Opt ChibiVerif.PPExpr.Body)) (main : String) (g : Bool) :
+    (∃ N, ∀ fuel, N ≤ fuel →
+      ChibiVerif.IncludeDepth.includeRunFuel ChibiVerif.PPExpr.evC xp fs sysDirs builtin os main g
+          ChibiVerif.Gen.C10Incl.includeDepthLimit fuel
+        = ChibiVerif.IncludeDepth.includeRun ChibiVerif.PPExpr.evC xp fs sysDirs builtin os main g
+          ChibiVerif.Gen.C10Incl.includeDepthLimit) ∧
+    ChibiVerif.IncludeDepth.includeRun ChibiVerif.PPExpr.evC xp fs sysDirs builtin os main g
+        ChibiVerif.Gen.C10Incl.includeDepthLimit ≠ .error (.diag .outOfFuel) :=
+  let h := ChibiVerif.Props.C10.C10_include_terminates_main xp hxp fs sysDirs builtin os main g
+  ⟨h.2.1, h.2.2.1⟩
+
+/-- non-vacuity of the hypothesis: an expander that never fails -/
+example : ∀ (d : ChibiVerif.CondIncl.Defs ChibiVerif.PPExpr.Body) (f : String) (ts : List ChibiVerif.IncludeOperand.OTok),
+    (fun _ _ ts => Except.ok ts : ChibiVerif.IncludeDepth.Xp ChibiVerif.PPExpr.Body) d f ts ≠ .error .outOfFuel := by
+  intro d f ts h; cases h
 
 end ChibiVerif.Props.C13
